@@ -2,7 +2,7 @@
     Property theorems only; proofs live in C04Facts.v (and RoundTripKeyed.v for completeness). *)
 From Coq Require Import String.
 From Coq Require Import List NArith.
-From Borsh Require Import Bytes Result Ty Ser De Entry RoundTrip RoundTripKeyed ParseFacts C04Facts.
+From Borsh Require Import Bytes Result Ty Ser De Entry RoundTrip RoundTripKeyed ParseFacts C04Facts SortLast C04Value.
 Import ListNotations.
 Local Open Scope N_scope.
 
@@ -79,3 +79,80 @@ Example C04_nonvacuous :
   (exists v, dec_slice c_loose (TSeq SBTreeSet (TPrim (PInt false W1))) [Byte.x02; Byte.x00; Byte.x00; Byte.x00; Byte.x05; Byte.x01] = Ok (v, [])) /\
   dec_slice c_strict (TSeq SBTreeSet (TPrim (PInt false W1))) [Byte.x02; Byte.x00; Byte.x00; Byte.x00; Byte.x05; Byte.x01] = Err InvalidData MKeyOrder.
 Proof. repeat split; try reflexivity. eexists. vm_compute. reflexivity. Qed.
+
+(** The VALUE of an accepted keyed collection, in every mode and for every byte string: it is
+    the same bytes read as a plain Vec of the entries (for a map: of the (key, value) pairs),
+    collected with [collect_sorted] (BTreeSet/BTreeMap/HashSet/HashMap) or [collect_index]
+    (IndexSet/IndexMap).  No hypothesis on the types. *)
+Theorem C04_loose_value :
+  forall (c : cfg) (k : seq_kind) (t' : ty) (bs : bytes) (v : val) (r : bytes),
+    is_keyed k = true ->
+    dec slice_reader c (TSeq k t') bs = Ok (v, r) ->
+    exists l, dec slice_reader c (TSeq SVec t') bs = Ok (VL l, r) /\
+              v = VL (if is_index k then collect_index (cmp_val (key_ty k t')) (key_val k) l
+                      else collect_sorted (cmp_val (key_ty k t')) (key_val k) l).
+Proof. exact loose_value. Qed.
+Print Assumptions C04_loose_value.
+
+(** ... and what that is ([collected], C04Value.v): [x] is an entry of the value exactly when it is
+    the LAST entry of the Vec with its key ([last_of], SortLast.v), the entries are in strictly
+    ascending key order (sorted kinds) / their keys are, position by position, those of the Vec with
+    only the first entry of each key kept ([first_keys]; index kinds); this determines the value:
+    no other list meets the description.  Every key of the Vec is a key of the value, once. *)
+Theorem C04_loose_value_spec :
+  forall (c : cfg) (k : seq_kind) (t' : ty) (bs : bytes) (v : val) (r : bytes),
+    is_keyed k = true -> wf (TSeq k t') = true -> dflt_ok t' = true ->
+    dec_slice c (TSeq k t') bs = Ok (v, r) ->
+    exists l s,
+      dec_slice c (TSeq SVec t') bs = Ok (VL l, r) /\ forallb (has_ty t') l = true /\
+      v = VL s /\
+      ((forall x, In x s <-> last_of (cmp_val (key_ty k t')) (key_val k) l x) /\
+       (if is_index k
+        then Forall2 (fun x f => cmp_val (key_ty k t') (key_val k x) (key_val k f) = Eq) s
+                     (first_keys (cmp_val (key_ty k t')) (key_val k) l)
+        else strictly_ascending (cmp_val (key_ty k t')) (key_val k) s = true)) /\
+      (forall s', collected k (key_ty k t') l s' -> s' = s) /\
+      (forall y, In y l -> exists x, In x s /\ cmp_val (key_ty k t') (key_val k y) (key_val k x) = Eq) /\
+      no_dup_keys (cmp_val (key_ty k t')) (key_val k) s = true.
+Proof. exact loose_value_spec. Qed.
+Print Assumptions C04_loose_value_spec.
+
+(** When the strict decoder accepts an ordered collection, the entries were already strictly
+    ascending, the value is those entries, and the loose decoder returns the same. *)
+Theorem C04_strict_is_loose_on_sorted :
+  forall (k : seq_kind) (t' : ty) (bs : bytes) (v : val) (r : bytes),
+    is_ordered k = true -> wf (TSeq k t') = true -> dflt_ok t' = true ->
+    dec_slice c_strict (TSeq k t') bs = Ok (v, r) ->
+    dec_slice c_loose (TSeq k t') bs = Ok (v, r) /\
+    exists l, dec_slice c_strict (TSeq SVec t') bs = Ok (VL l, r) /\
+              strictly_ascending (cmp_val (key_ty k t')) (key_val k) l = true /\
+              v = VL l.
+Proof. exact strict_is_loose_on_sorted. Qed.
+Print Assumptions C04_strict_is_loose_on_sorted.
+
+(** Entries (2,10) (1,11) (2,12), unsorted and repeated: BTreeMap<u8,u8> loosely gives
+    [(1,11); (2,12)], strictly refuses; IndexMap<u8,u8> gives [(2,12); (1,11)]; the Vec of pairs
+    gives the three entries as they stand. *)
+Example C04_loose_value_btreemap :
+  dec_slice c_loose (TSeq SBTreeMap (TProd PTuple [TPrim (PInt false W1); TPrim (PInt false W1)]))
+    [Byte.x03; Byte.x00; Byte.x00; Byte.x00; Byte.x02; Byte.x0a; Byte.x01; Byte.x0b; Byte.x02; Byte.x0c]
+  = Ok (VL [VL [VN 1; VN 11]; VL [VN 2; VN 12]], []).
+Proof. vm_compute. reflexivity. Qed.
+
+Example C04_strict_refuses_btreemap :
+  dec_slice c_strict (TSeq SBTreeMap (TProd PTuple [TPrim (PInt false W1); TPrim (PInt false W1)]))
+    [Byte.x03; Byte.x00; Byte.x00; Byte.x00; Byte.x02; Byte.x0a; Byte.x01; Byte.x0b; Byte.x02; Byte.x0c]
+  = Err InvalidData MKeyOrder.
+Proof. vm_compute. reflexivity. Qed.
+
+Example C04_loose_value_indexmap :
+  dec_slice c_loose (TSeq SIndexMap (TProd PTuple [TPrim (PInt false W1); TPrim (PInt false W1)]))
+    [Byte.x03; Byte.x00; Byte.x00; Byte.x00; Byte.x02; Byte.x0a; Byte.x01; Byte.x0b; Byte.x02; Byte.x0c]
+  = Ok (VL [VL [VN 2; VN 12]; VL [VN 1; VN 11]], []).
+Proof. vm_compute. reflexivity. Qed.
+
+Example C04_plain_vec_of_pairs :
+  dec_slice c_loose (TSeq SVec (TProd PTuple [TPrim (PInt false W1); TPrim (PInt false W1)]))
+    [Byte.x03; Byte.x00; Byte.x00; Byte.x00; Byte.x02; Byte.x0a; Byte.x01; Byte.x0b; Byte.x02; Byte.x0c]
+  = Ok (VL [VL [VN 2; VN 10]; VL [VN 1; VN 11]; VL [VN 2; VN 12]], []).
+Proof. vm_compute. reflexivity. Qed.
